@@ -72,3 +72,8 @@ Definition expected_separators : list (bytes * bytes) :=
 Definition expected_dumpto : list bytes :=
   [ bs "len(p) == 0 || output == nil";
     bs "d.Async() && atomic.LoadInt32(&d.running) == 1" ].
+
+(* every *bufio.Writer assertion that decides a Flush (before waiting for 100-continue,
+   FlushHeaders, FlushAfterChunkWriter) is made on the raw writer *)
+Definition expected_bufio_asserts : list (bytes * bytes) :=
+  [ (bs "writeRequest", bs "rw"); (bs "writeRequest", bs "rw"); (bs "writeBody", bs "rw") ].
